@@ -134,7 +134,9 @@ def gen_configs(tier, rng):
         if "num_workers" in kw and ids is not None:
             ids = sorted(ids)            # worker pools may finish in any order: compare as sets
         cfgs.append({"id": len(cfgs), "sched": sched, "mode": mode, "B": B, "state": state, "pre": pre, "ids": ids,
-                     "res": res, "cli": cli, "int_ids": int_ids})
+                     "res": res, "cli": cli, "int_ids": int_ids,
+                     # every fourth crop is created with a RELATIVE parent directory (the script must still find it)
+                     "relative": len(cfgs) % 4 == 3})
     rot = 0
     for sched in SCHEDS:
         for mode in MODES:
@@ -217,13 +219,24 @@ def base_env():
 
 def prepare(cfg, root):
     """Sow (and pre-grow) the crop, generate the script, run the static checks, plan the runs."""
+    if not cfg.get("relative"):
+        return _prepare(cfg, root, None)
+    cwd0 = os.getcwd()
+    os.chdir(root)                 # (prepare runs sequentially in the main thread)
+    try:
+        return _prepare(cfg, root, f"c{cfg['id']}")
+    finally:
+        os.chdir(cwd0)
+
+
+def _prepare(cfg, root, rel):
     import xyzpy
     d = os.path.join(root, f"c{cfg['id']}")
     os.makedirs(d)
     name = f"k{cfg['id']}"
     B = cfg["B"]
     combos = {"a": list(range(B)), "b": [0, 1]}
-    crop = xyzpy.Crop(fn=c16fn.fn, name=name, parent_dir=d, batchsize=2)
+    crop = xyzpy.Crop(fn=c16fn.fn, name=name, parent_dir=rel if rel is not None else d, batchsize=2)
     crop.sow_combos(combos, verbosity=0)
     if cfg["pre"]:
         crop.grow(tuple(cfg["pre"]), verbosity=0)
@@ -602,7 +615,7 @@ def run(tier, seed):
             nontrivial = bool(st.get("intended")) and (cfg["B"] >= 2 or cfg["state"] != "fresh")
             c.case(sig, nontrivial=nontrivial, sample=sample_of(cfg, st))
             c.count("scheduler", cfg["sched"]); c.count("mode", cfg["mode"]); c.count("state", cfg["state"])
-            c.count("batches", cfg["B"]); c.count("spelling", cfg["res"])
+            c.count("batches", cfg["B"]); c.count("spelling", cfg["res"]); c.count("relative_parent_dir", bool(cfg.get("relative")))
             c.count("runs_per_script", len(st.get("runs", [])))
             c.count("intended_tasks", len(st.get("intended") or []))
             if st.get("walltime_note"):
